@@ -163,6 +163,7 @@ def no_integral_float(v):
 EXC = {'KeyError': KeyError, 'ValueError': ValueError, 'TypeError': TypeError, 'RuntimeError': RuntimeError,
        'ZeroDivisionError': ZeroDivisionError}
 CONST_RESULTS = [True, False, 1, 0, 'yes', '', None, [], [0], {}, {'ok': False}, 2.5]
+CORO = Obj(4294967295)      # Admin/AdminRuntime.v coroutine_object
 
 
 class Pred:
@@ -201,6 +202,10 @@ class Pred:
                 async def __call__(self, auth):
                     return p._run(auth)
             self.fn = AsyncCallable()
+        elif self.shape == 'function-returning-coroutine':
+            async def inner(auth):
+                return p._run(auth)
+            self.fn = lambda auth: inner(auth)
         elif self.is_coro:
             async def predicate(auth):
                 return p._run(auth)
@@ -219,6 +224,17 @@ class Pred:
         self.last = (True, r)
         return r
 
+    @property
+    def returns_coroutine(self):
+        return self.shape != 'function'
+
+    def oracle_fields(self, eff):
+        """(call, awaited) for the Coq case: what CALLING the predicate gives, and - when that is a
+        coroutine object - what awaiting it gives (what it WOULD give if the server never awaited it)."""
+        if self.returns_coroutine:
+            return (True, CORO), (self.last if self.last is not None else self.intended(eff))
+        return (self.last if self.last is not None else self.intended(eff)), None
+
     def intended(self, auth):
         """what the predicate answers for this payload (used when the server never ran / awaited it)."""
         try:
@@ -230,7 +246,9 @@ class Pred:
 def gen_pred(rng, allow_coro, cred, obj_id, kinds=None, shape=None):
     kind = rng.choice(kinds or ['eq', 'eq', 'const', 'const', 'key', 'get', 'raise'])
     spec = {'kind': kind, 'cred': cred,
-            'shape': shape or ('coroutine' if allow_coro and rng.random() < 0.5 else 'function')}
+            'shape': shape or (rng.choice(['coroutine', 'coroutine', 'coroutine', 'async-callable',
+                                           'function-returning-coroutine'])
+                               if allow_coro and rng.random() < 0.5 else 'function')}
     if kind == 'const':
         spec['value'] = rng.choice(CONST_RESULTS)
     if kind == 'raise':
@@ -270,6 +288,10 @@ def c_acfg(auth_printed, read_only, mode, ns):
     return '(mkACfg %s %s %s %s)' % (pv(auth_printed), pv(read_only), pv(mode), pv(ns))
 
 
+def c_awaited(x):
+    return 'None' if x is None else '(Some %s)' % c_res(*x)
+
+
 def c_res(ok, v):
     if ok:
         try:
@@ -307,10 +329,11 @@ def tv_case(is_async, desc, mode, ro, payloads, d=None):
                 pred.last = None
             ok, val = await direct_call(drv, copy.deepcopy(payload))
             drv.bg = []
-            call = pred.last if (pred is not None and pred.last is not None) else (False, 'OtherError')
+            call, awaited = pred.oracle_fields(payload) if pred is not None else ((False, 'OtherError'), None)
             iscoro = bool(pred is not None and asyncio.iscoroutinefunction(pred.fn))
-            out.append(('(TV %s %s %s %s %s %s)' % (cbool(is_async), c_acfg(auth_p, ro, mode, '/admin'), pv(payload),
-                                                     c_res(*call), cbool(iscoro), c_res(ok, val)), ok))
+            out.append(('(TV %s %s %s %s %s %s %s)' % (cbool(is_async), c_acfg(auth_p, ro, mode, '/admin'), pv(payload),
+                                                        c_res(*call), cbool(iscoro), c_awaited(awaited),
+                                                        c_res(ok, val)), ok))
         return out
     return asyncio.run(main())
 
@@ -425,16 +448,14 @@ def cn_case(is_async, always, mode, ro, desc, payload):
     bystander = [e for e in effs if e[0] == 'Out' and e[1] == 'e0'] + [e for e in effs if e[0] == 'Call']
     data = decode_connect_data(payload)
     eff = data if data else None
-    if pred is None:
-        call = (False, 'OtherError')
-    elif pred.shape == 'async-callable' or pred.last is None:
-        call = pred.intended(eff)       # never awaited / never run: what the predicate would answer
-    else:
-        call = pred.last
+    call, awaited = pred.oracle_fields(eff) if pred is not None else ((False, 'OtherError'), None)
     iscoro = bool(pred is not None and asyncio.iscoroutinefunction(pred.fn))
-    term = '(CN %s %s %s %s %s %s %s %s)' % (cbool(is_async), cbool(always), c_acfg(auth_p, ro, mode, '/admin'),
-                                             pv(data), c_res(*call), cbool(iscoro), clist(answers), cbool(member))
-    return term, {'answers': answers, 'events': events, 'member': member, 'bystander': bystander, 'call': call,
+    term = '(CN %s %s %s %s %s %s %s %s %s)' % (cbool(is_async), cbool(always), c_acfg(auth_p, ro, mode, '/admin'),
+                                                pv(data), c_res(*call), cbool(iscoro), c_awaited(awaited),
+                                                clist(answers), cbool(member))
+    # what the predicate finally says for this payload (awaited if the class can await)
+    final = awaited if (awaited is not None and is_async) else call
+    return term, {'answers': answers, 'events': events, 'member': member, 'bystander': bystander, 'call': final,
                   'shape': pred.shape if pred else None, 'pred': pred.kind if pred else None}
 
 
@@ -451,7 +472,7 @@ def part_b(chk, cases, meta):
             lab, desc, creds = 'predicate-async-callable', {'kind': 'predicate', 'spec': p.spec}, [c]
         else:
             lab, desc, creds = gen_auth_config(rng, is_async, 900 + i)
-            if desc['kind'] == 'predicate' and desc['spec']['shape'] == 'coroutine' and not is_async and rng.random() < 0.7:
+            if desc['kind'] == 'predicate' and desc['spec']['shape'] != 'function' and not is_async and rng.random() < 0.7:
                 # a coroutine function on the threaded server is a documented misuse; keep only a few
                 desc['spec']['shape'] = 'function'
                 lab = 'predicate-function'
@@ -825,7 +846,7 @@ def classify(m, code):
     elif m.get('signature'):
         sig = m['signature']
     elif part == 'CN':
-        if m.get('shape') == 'async-callable':
+        if m.get('shape') in ('async-callable', 'function-returning-coroutine') and m.get('async') and m.get('member'):
             sig = SIG_ACALL
         elif m.get('pred') is not None and not m.get('call_ok') and m.get('member'):
             sig = SIG_RAISES
@@ -846,8 +867,9 @@ def classify(m, code):
     what = {
         SIG_RAISES: 'the configured predicate raised for this payload; the attempt was NOT refused: no answer was sent and '
                     'the transport stays a member of the admin namespace (it receives every admin broadcast)',
-        SIG_ACALL: 'the configured predicate is an object with `async def __call__`; AsyncServer never awaits it '
-                   '(asyncio.iscoroutinefunction is False for it), the coroutine object is truthy: everybody is accepted',
+        SIG_ACALL: 'the configured predicate returns a coroutine without being a coroutine function (object with '
+                   '`async def __call__`, or a function returning a coroutine); AsyncServer did not await it, the '
+                   'coroutine object is truthy: the attempt is accepted although the awaited answer is falsy / raises',
         SIG_EMPTY: 'emit(room=[]) / emit(to=()) to a namespace nobody is connected to returns None on the plain server and '
                    'raises IndexError on the server instrumented in development mode',
         SIG_BINARY: 'development mode with an admin client connected: an incoming event that carries bytes (BINARY_EVENT) '
@@ -906,6 +928,35 @@ def evaluate(chk, cases, meta, gen_ok):
     return codes
 
 
+def gen_is_current():
+    """Admin/Gen_admin.v and its .vo are the translation of the tree under test (guards against a
+    concurrent run regenerating them from another VERIF_REPO, and against a stale .vo)."""
+    from translator import admin2coq
+    path = os.path.join(common.COQ, admin2coq.OUT)
+    try:
+        text = admin2coq.translate()
+    except Exception:
+        return not os.path.exists(path)          # failed closed: there must be no output
+    if not os.path.exists(path) or open(path).read() != text:
+        return False
+    return os.path.exists(path + 'o') and admin2coq.vo_is_fresh(text)
+
+
+def prove_current(chk, targets):
+    """chk.prove(), repeated when the generated file was changed under it."""
+    saved = list(chk.broken)
+    for attempt in range(3):
+        chk.broken[:] = saved
+        proved = chk.prove(targets=targets)
+        if gen_is_current():
+            return proved
+        if not os.path.exists(os.path.join(common.COQ, 'Admin', 'Gen_admin.vo')):
+            return proved                          # the generated text does not compile: reported by prove()
+    chk.broken_obligation('Admin/Gen_admin.v does not match the translation of %s after three builds (another '
+                          'process regenerating it from a different tree?)' % common.REPO)
+    return False
+
+
 def run(chk):
     chk.rule = ('TV: real admin_connect called directly, distinct by (class, auth kind, payload mutation kind, outcome); '
                 'IV: every (class, mode value, read_only value); CN: CONNECT on the admin namespace through the real '
@@ -933,8 +984,8 @@ def run(chk):
                        '(premise ext_total of C18_auth)',
                        'admin reports are encodable (premise `encodable` of C18_transparent, pointwise)',
                        'handlers run inline (async_handlers=False); the stats loop runs only at explicit admin_tick operations']
-    ok = chk.prove(targets=['Admin/AdminGenCheck.v'])
     from translator import admin2coq
+    ok = prove_current(chk, ['Admin/AdminGenCheck.v'])
     gen_ok = os.path.exists(os.path.join(common.COQ, 'Admin', 'AdminGenCheck.vo')) and \
         os.path.exists(os.path.join(common.COQ, admin2coq.OUT)) and admin2coq.vo_is_fresh()
     if not gen_ok:
